@@ -1,3 +1,4 @@
+import F3.Proofs.NodeGen2
 import F3.Model.Certs
 import F3.Model.CertsParse
 import F3.Spec.Certs
@@ -411,4 +412,29 @@ example : (validateCerts 2 Ex.t0 5 none [Ex.c5]).err = some .badSig := by decide
 example : (validateCerts 1 Ex.t0 5 none [Ex.c5, Ex.mk 6 [Ex.b0, Ex.x2] Ex.t1 Ex.t1 [0, 1]]).err =
     some .baseMismatch := by decide
 
+end F3.Props.C04
+
+/-! # Regenerated, second set (appended): ties to `tools/go2lean/targets.d/*2.json` -/
+namespace F3.Props.C04
+section Regenerated2
+/-! ## Regenerated (2): the order of the checks of `ValidateFinalityCertificates` (`certs/certs.go`)
+
+Proved in `F3/Proofs/NodeGen2.lean` against `F3/Gen/Certs2.lean` (`targets.d/Certs2.json`). -/
+
+/-- the outcome class of one iteration of the model's loop = the code of the regenerated `if` sequence:
+instance, chain validity, emptiness, base, signature, delta, CID — in the source's order
+(statement: `F3.Gen2Tie.stepCert_checks_are_regenerated`) -/
+theorem step_cert_checks_are_regenerated : type_of% @F3.Gen2Tie.stepCert_checks_are_regenerated :=
+  @F3.Gen2Tie.stepCert_checks_are_regenerated
+
+example : F3.Gen.Certs2.validateCertChecks true false 3 true true true false true 4 true = 1 ∧
+    F3.Gen.Certs2.validateCertChecks true false 4 true true true false true 4 true = 2 ∧
+    F3.Gen.Certs2.validateCertChecks true false 4 false true true false true 4 true = 3 ∧
+    F3.Gen.Certs2.validateCertChecks true false 4 false false true false true 4 true = 4 ∧
+    F3.Gen.Certs2.validateCertChecks false false 4 false false true false true 4 true = 5 ∧
+    F3.Gen.Certs2.validateCertChecks false false 4 false false true false true 4 false = 6 ∧
+    F3.Gen.Certs2.validateCertChecks false false 4 false false true false false 4 false = 8 ∧
+    F3.Gen.Certs2.validateCertChecks false false 4 false false false false false 4 false = 0 := by decide
+
+end Regenerated2
 end F3.Props.C04
